@@ -27,9 +27,14 @@ def _env():
 
 def check_one(path, name, line, budget):
     t0 = time.time()
-    cmd = [sys.executable, '-m', 'crosshair', 'check', '--report_all', '--per_condition_timeout', str(budget), '-v', f'{path}:{line}']
+    import tempfile, shutil
+    scratch = tempfile.mkdtemp(prefix='cct-verif-xh-', dir='/var/tmp')     # code under test may do real file I/O: never in /verif
+    cmd = [sys.executable, '-m', 'crosshair', 'check', '--report_all', '--per_condition_timeout', str(budget), '-v', f'{os.path.join(HERE, path)}:{line}']
     try:
-        p = subprocess.run(cmd, cwd=HERE, env=_env(), capture_output=True, text=True, timeout=budget * 3 + 60)
+        try:
+            p = subprocess.run(cmd, cwd=scratch, env=_env(), capture_output=True, text=True, timeout=budget * 3 + 60)
+        finally:
+            shutil.rmtree(scratch, ignore_errors=True)
         out, err = p.stdout, p.stderr
     except subprocess.TimeoutExpired as e:
         out, err = (e.stdout or b'').decode() if isinstance(e.stdout, bytes) else (e.stdout or ''), ''
@@ -69,7 +74,12 @@ except Exception as e:
 def replay(path, call):
     modname = path[:-3].replace('/', '.')
     code = REPLAY % (HERE, modname, call[0], call[1])
-    p = subprocess.run([sys.executable, '-c', code], cwd=HERE, env=_env(), capture_output=True, text=True, timeout=120)
+    import tempfile, shutil
+    scratch = tempfile.mkdtemp(prefix='cct-verif-xh-', dir='/var/tmp')
+    try:
+        p = subprocess.run([sys.executable, '-c', code], cwd=scratch, env=_env(), capture_output=True, text=True, timeout=120)
+    finally:
+        shutil.rmtree(scratch, ignore_errors=True)
     try:
         return json.loads(p.stdout.strip().splitlines()[-1])
     except Exception:
